@@ -12,6 +12,7 @@ BASE = "simulator/network/hardware/base.py"
 TERM = "simulator/system/services/terminal/terminal.py"
 SVC = "simulator/system/services/service.py"
 HOST = "simulator/network/hardware/nodes/host/host_node.py"
+ROUTER = "simulator/network/hardware/nodes/network/router.py"
 
 _CMP = {ast.LtE: "le", ast.Lt: "lt", ast.GtE: "ge", ast.Gt: "gt", ast.Eq: "eq"}
 
@@ -443,6 +444,15 @@ def emit() -> str:
     rf = find_method(hn, "receive_frame")
     port_gate = any(isinstance(n, ast.If) and "dst_port in self.software_manager.get_open_ports()" in ast.unparse(n.test) for n in ast.walk(rf))
 
+    # ---- Router: ARP frames are exempt from the ACL; a router that is not ON drops every frame before anything else
+    rt = class_def(parse(ROUTER), "Router")
+    sta = _body(find_method(rt, "subject_to_acl"))
+    arp_exempt = [ast.unparse(x.test) + " -> " + "; ".join(ast.unparse(y) for y in x.body) if isinstance(x, ast.If) else ast.unparse(x)
+                  for x in sta]
+    rrf = _body(find_method(rt, "receive_frame"))
+    router_off_drops = (isinstance(rrf[0], ast.If) and ast.unparse(rrf[0].test) == "self.operating_state != NodeOperatingState.ON"
+                        and ast.unparse(rrf[0].body[0]) == "return")
+
     verbs_lean = "[" + ", ".join(f'("{a}", "{b}", "{c}")' for a, b, c in verbs) + "]"
     tested_lean = "[" + ", ".join(f'("{m}", {_lean_list(v)})' for m, v in tested.items()) + "]"
     states_lean = "[" + ", ".join(f'("{a}", {b})' for a, b in states) + "]"
@@ -527,6 +537,9 @@ def serviceVerbs : List (String × String × String) := {verbs_lean}
 /-- states accepted inside each lifecycle method (sorted) -/
 def methodStates : List (String × List String) := {tested_lean}
 def restartFinishTest : String := "{restart_test}"
+/-- `Router.subject_to_acl`, statement by statement -/
+def routerSubjectToAcl : List String := {_lean_list(arp_exempt)}
+def routerOffDropsEveryFrame : Bool := {_b(router_off_drops)}
 def hostDropsFramesForClosedPorts : Bool := {_b(port_gate)}
 end Primaite.Gen.Session
 """
